@@ -137,6 +137,18 @@ def one_step(M, f, jac, y, h, dtype, mask, via, implicit, cache=None):
     return dT, y + dY
 
 
+def warm_up(case, M, f, jac, y_like, h, dtype, mask, implicit, cache):
+    """'warm': the shared integrator object has a past at ANOTHER SCALE - its first call starts from a state eight orders of magnitude larger (or smaller) than
+    the states the map is then evaluated at.  Whatever the object derives from a state (tolerances of its stage solve, scalings) belongs to the call."""
+    de, I = _imports()
+    if not case.get("warm") or cache is None:
+        return
+    try:
+        one_step(M, f, jac, (np.asarray(y_like, dtype=dtype) * dtype(case["warm"])), h, dtype, mask, case["via"], implicit, cache)
+    except (de.exception_types.FailedToMeetTolerances, OverflowError, FloatingPointError):
+        pass
+
+
 def states(dof, quick):
     pts = [-0.5, 0.25, 0.75] if dof == 1 else ([-0.5, 0.75] if quick else [-0.5, 0.25, 0.75])
     return [np.array(c) for c in itertools.product(pts, repeat=2 * dof)]
@@ -157,6 +169,7 @@ def map_case(case):
         sts = sts[:1]
     worst = 0.0
     cache = {} if case.get("reuse") else None
+    warm_up(case, M, f, jac, sts[0], h, dtype, mask, implicit, cache)
     for y0 in sts:
         y0 = y0.astype(dtype)
         try:
@@ -194,7 +207,7 @@ def map_case(case):
             r.v("C10/symplectic/%s" % case["method"], "M^T J M = J for the one-step map", dict(case, y0=y0.astype(float)),
                 observed=dict(defect=defect, tol=tol), expected="<= tol")
             break
-    r.out(("map", case["method"], case["H"], case["layout"], case["via"], h > 0, bool(case.get("reuse")), case.get("mask_kind")))
+    r.out(("map", case["method"], case["H"], case["layout"], case["via"], h > 0, bool(case.get("reuse")), case.get("mask_kind"), case.get("warm")))
     if case.get("sample"):
         r.samples.append(dict(section="map", case={k: v for k, v in case.items() if k != "sample"}, states=len(sts), worst_ratio=worst))
     return r
@@ -213,6 +226,7 @@ def reverse_case(case):
     mask = mask_as(mask, case.get("mask_kind"))
     h = case["h"]
     cache = {} if case.get("reuse") else None
+    warm_up(case, M, f, jac, states(dof, True)[0], h, dtype, mask, implicit, cache)
     for y0 in states(dof, True):
         y0 = y0.astype(dtype)
         try:
@@ -229,7 +243,7 @@ def reverse_case(case):
             r.v("C10/reversible/%s" % case["method"], "a step of h followed by a step of -h returns the start", dict(case, y0=y0.astype(float)),
                 observed=dict(err=err, tol=tol), expected="<= tol")
             break
-    r.out(("reverse", case["method"], case["H"], case["layout"], h > 0))
+    r.out(("reverse", case["method"], case["H"], case["layout"], h > 0, case.get("warm")))
     return r
 
 
@@ -377,6 +391,10 @@ def run(ctx):
                     if M.__name__ in SYMMETRIC and via in ("default", "ctor"):
                         cases.append(dict(section="reverse", method=M.__name__, H=H, layout=lay, via=via, h=h))
                         cases.append(dict(section="reverse", method=M.__name__, H=H, layout=lay, via=via, h=h, reuse=True))
+                        if abs(h) == 0.1 and H in ("harmonic", "coupled", "pendulum"):
+                            for w in (1e8, 1e-8):
+                                cases.append(dict(section="reverse", method=M.__name__, H=H, layout=lay, via=via, h=h, reuse=True, warm=w))
+                                cases.append(dict(section="map", method=M.__name__, H=H, layout=lay, via=via, h=h, quick=True, reuse=True, warm=w))
         for H in ("harmonic", "pendulum") + (() if ctx.quick else ("henon",)):
             for h in (0.1, -0.1) + (() if ctx.quick else (0.25,)):
                 cases.append(dict(section="energy", method=M.__name__, H=H, h=h, steps=1024 if ctx.quick and implicit else 4096))
